@@ -1,2 +1,136 @@
-(* statements land with the deep pass; see Proofs *)
-Require Import Model.Base.
+(* C08 — bus framing of drawing calls: every drawing call emits nothing but
+   (CASET RASET RAMWR PIXELS)*; windows are well-formed and addressable; no burst is longer than its
+   window; fills use exactly one window. Statements only; proofs in Proofs/ProgramP.v. *)
+Require Import Model.Base Model.Orient Model.Dcs Model.Events Model.Builder Model.Rect Model.Batch Model.Display.
+Require Import Oracle.Spec Oracle.Controller Oracle.DrawSpec.
+Require Import Proofs.DcsP Proofs.WindowP Proofs.CtlP Proofs.DrawP Proofs.ClipP Proofs.BatchP Proofs.OrientStateP
+               Proofs.ProgramP.
+Open Scope Z_scope.
+
+(* Any well-formed program (see C02): the trace of EVERY drawing call satisfies the framing grammar
+   `framing_ok` (Oracle/DrawSpec.v: groups of set_column_address with 4 parameter bytes,
+   set_page_address with 4, write_memory_start with none, one pixel transfer) and `bursts_fit`
+   (Proofs/ProgramP.v: the transfer of each group carries at most — a repeat: exactly — as many pixels
+   as (ec - sc + 1) * (ep - sp + 1) for the window announced just before it); and the reference
+   controller raises none of its anomaly flags: no wrong parameter count, no start > end, no window
+   beyond the addressable extent under the current MV, no pixels without RAMWR, no pointer wrap *)
+Theorem C08_framing : forall c ops st k,
+  valid_cfg c (d_opts st) -> madctl_ok st -> ctl_matches c (d_opts st) k ->
+  (1 <= c_rowcap c)%nat -> (c_rowcap c <= c_blockcap c)%nat -> prog_wf (d_opts st) ops ->
+  Forall2 (fun op tr => is_draw op = true -> framing_ok (fst tr) = true /\ bursts_fit (fst tr) = true)
+          ops (fst (exec c st ops)) /\
+  k_flags (ctl_run k (exec_trace c st ops)) = k_flags k.
+Proof. exact exec_framing. Qed.
+
+(* one call, no controller needed *)
+Theorem C08_framing_op : forall c st (op : pop),
+  valid_cfg c (d_opts st) -> (1 <= c_rowcap c)%nat -> (c_rowcap c <= c_blockcap c)%nat ->
+  op_wf (d_opts st) op -> is_draw op = true ->
+  framing_ok (fst (fst (step c st op))) = true /\ bursts_fit (fst (fst (step c st op))) = true.
+Proof. exact step_framing. Qed.
+
+(* set_pixel, set_pixels, clear: exactly one window; fill_solid / fill_contiguous: exactly one when
+   part of the rectangle is visible, none otherwise; draw_iter: at most one per in-bounds pixel
+   (exactly one without the batch feature) *)
+Theorem C08_one_window_per_fill : forall c st (op : pop),
+  valid_cfg c (d_opts st) -> (1 <= c_rowcap c)%nat -> (c_rowcap c <= c_blockcap c)%nat ->
+  op_wf (d_opts st) op ->
+  let t := fst (fst (step c st op)) in
+  let lw := fst (lsize (d_opts st)) in
+  let lh := snd (lsize (d_opts st)) in
+  match op with
+  | PSetPixel _ _ _ | PSetPixels _ _ _ _ _ | PClear _ => count_ramwr t = 1
+  | PFillContig r _ | PFillContigGen r _ | PFillSolid r _ => count_ramwr t = if visible r lw lh then 1 else 0
+  | PDrawIter ps =>
+      0 <= count_ramwr t <= Z.of_nat (length (filter (in_bbox (d_opts st)) ps)) /\
+      (c_batch c = false -> count_ramwr t = Z.of_nat (length (filter (in_bbox (d_opts st)) ps)))
+  | _ => True
+  end.
+Proof. exact step_ramwr_count. Qed.
+
+(* the burst of one window: `bursts_fit` of CASET(sx+dx, ex+dx) RASET(sy+dy, ey+dy) RAMWR e is the
+   plain comparison of the transfer length with the window area (big-endian parameters decoded) *)
+Theorem C08_burst_fits : forall c o sx sy ex ey e,
+  bursts_fit (burst c o sx sy ex ey e) = burst_len_ok e ((ex - sx + 1) * (ey - sy + 1)).
+Proof. exact bursts_fit_burst. Qed.
+
+(* the three sources of bursts: set_pixels as called by fill_contiguous (at most the visible area),
+   by the batcher (exactly the block area), and fill_solid's repeat (exactly the visible area: see
+   C02_rect_clip_solid) *)
+Theorem C08_burst_fits_contiguous : forall (a : rect) (lw lh : Z) (cs : list Z),
+  visible a lw lh = true ->
+  Z.of_nat (length (clip_colors a lw lh cs)) <= (vx1 a lw - vx0 a) * (vy1 a lh - vy0 a).
+Proof. exact clip_colors_length. Qed.
+
+Theorem C08_burst_fits_blocks : forall md cap bcap (ps : list pixel),
+  (1 <= cap)%nat -> (cap <= bcap)%nat -> Forall in_range ps ->
+  exists bs, blocks_of md bcap (rows_of cap ps) = (bs, Ok tt) /\
+    concat (map block_pixels bs) = ps /\ Forall (block_ok bcap) bs.
+Proof. exact batch_flatten. Qed.
+
+(* the single-window decode the above rests on (repeated from C01 for reference): a burst no longer
+   than the window leaves the controller's flags untouched *)
+Theorem C08_window_decoding : forall c o k sx sy ex ey cs,
+  valid_cfg c o -> ctl_matches c o k ->
+  0 <= sx <= ex -> ex < fst (lsize o) -> 0 <= sy <= ey -> ey < snd (lsize o) ->
+  (length cs <= Z.to_nat (ex - sx + 1) * Z.to_nat (ey - sy + 1))%nat ->
+  let '(dx, dy) := win_off c o in
+  let t := [ECmd 0x2A (be16 (sx + dx) ++ be16 (ex + dx)); ECmd 0x2B (be16 (sy + dy) ++ be16 (ey + dy));
+            ECmd 0x2C []; EPixels (map (c_enc c) cs)] in
+  set_pixels c o sx sy ex ey cs = (t, Ok tt) /\
+  let k' := ctl_run k t in
+  same_regs k k' /\ ctl_matches c o k' /\
+  writes k' = writes k ++ zip_rows (c_enc c) (panel_of o) (o_orient o) sx sy
+                                   (Z.to_nat (ex - sx + 1)) (Z.to_nat (ey - sy + 1)) cs /\
+  framing_ok t = true.
+Proof. exact set_pixels_decode. Qed.
+
+(* ---- non-vacuity ---- *)
+Definition ex_c b := {| c_md := Release; c_batch := b; c_fw := 240; c_fh := 320; c_enc := fun v => [v];
+                        c_rowcap := 50; c_blockcap := 100 |}.
+Definition ex_o := {| o_bgr := false; o_orient := {| rotn := D180; mir := false |}; o_inv := false;
+                      o_btt := false; o_rtl := false; o_w := 100; o_h := 50; o_ox := 3; o_oy := 7 |}.
+Definition ex_st := fresh_state ex_o.
+Definition ex_k := ctl_run (power_on 240 320) [ECmd 0x36 [madctl_of_opts ex_o]].
+Definition ex_prog : list pop :=
+  [ PClear 1;
+    PFillSolid {| rx := 90; ry := 40; rw := 50; rh := 50 |} 2;
+    PFillSolid {| rx := 100; ry := 0; rw := 5; rh := 5 |} 3;
+    PFillContig {| rx := -1; ry := 0; rw := 3; rh := 2 |} [1; 2; 3; 4; 5; 6; 7];
+    PDrawIter [(0, 0, 1); (1, 0, 2); (2, 0, 3); (0, 1, 4); (1, 1, 5); (2, 1, 6); (7, 7, 7); (-1, -1, 8)];
+    PSetPixels 10 10 12 11 [1; 2; 3; 4] ].
+
+Example C08_ex_hyps : forall b,
+  valid_cfg (ex_c b) (d_opts ex_st) /\ madctl_ok ex_st /\ ctl_matches (ex_c b) (d_opts ex_st) ex_k /\
+  (1 <= c_rowcap (ex_c b))%nat /\ (c_rowcap (ex_c b) <= c_blockcap (ex_c b))%nat /\
+  prog_wf (d_opts ex_st) ex_prog.
+Proof.
+  intros b.
+  split; [unfold valid_cfg; cbn; lia|]. split; [reflexivity|].
+  split; [unfold ctl_matches; vm_compute; repeat split|].
+  split; [cbn; lia|]. split; [cbn; lia|].
+  unfold ex_prog, prog_wf, op_wf, rect_valid, i32. cbn [d_opts ex_st fresh_state lsize ex_o
+    o_orient rotn is_horizontal o_w o_h set_orient rx ry rw rh length].
+  change (2 ^ 31) with 2147483648. change (2 ^ 32) with 4294967296.
+  repeat (split; try lia); repeat constructor; try lia.
+Qed.
+
+(* windows per call, with the batch feature (the 3 x 2 block is ONE window) and without *)
+Example C08_ex_counts :
+  map (fun tr => count_ramwr (fst tr)) (fst (exec (ex_c true) ex_st ex_prog)) = [1; 1; 0; 1; 2; 1] /\
+  map (fun tr => count_ramwr (fst tr)) (fst (exec (ex_c false) ex_st ex_prog)) = [1; 1; 0; 1; 7; 1] /\
+  forallb (fun tr => framing_ok (fst tr) && bursts_fit (fst tr)) (fst (exec (ex_c true) ex_st ex_prog)) = true /\
+  k_flags (ctl_run ex_k (exec_trace (ex_c true) ex_st ex_prog)) = [].
+Proof. vm_compute. repeat split. Qed.
+
+(* the checkers are not trivially true: a 2 x 1 window with three pixels, a repeat one short, a burst
+   without RAMWR, an orientation change in a drawing call; and the controller flags the overrun *)
+Example C08_ex_checkers_reject :
+  bursts_fit [ECmd 0x2A [0; 5; 0; 6]; ECmd 0x2B [0; 9; 0; 9]; ECmd 0x2C []; EPixels [[1]; [2]; [3]]] = false /\
+  bursts_fit [ECmd 0x2A [0; 5; 0; 6]; ECmd 0x2B [0; 9; 0; 9]; ECmd 0x2C []; EPixels [[1]; [2]]] = true /\
+  bursts_fit [ECmd 0x2A [0; 5; 0; 6]; ECmd 0x2B [0; 9; 0; 9]; ECmd 0x2C []; ERepeat [1] 1] = false /\
+  framing_ok [ECmd 0x2A [0; 5; 0; 6]; ECmd 0x2B [0; 9; 0; 9]; EPixels [[1]]] = false /\
+  framing_ok [ECmd 0x36 [0]; ECmd 0x2A [0; 5; 0; 6]; ECmd 0x2B [0; 9; 0; 9]; ECmd 0x2C []; EPixels [[1]]] = false /\
+  k_flags (ctl_run (power_on 240 320)
+             [ECmd 0x2A [0; 5; 0; 6]; ECmd 0x2B [0; 9; 0; 9]; ECmd 0x2C []; EPixels [[1]; [2]; [3]]]) = [PointerWrap].
+Proof. vm_compute. repeat split. Qed.
